@@ -5,7 +5,7 @@ abstract interpretation (AFF) of step / solve_implicit / calc_jacobian."""
 import ast
 from fractions import Fraction
 
-from ..affine import run_step, run_jacobian, NEQ, FDQuot, JacMat, Idx
+from ..affine import run_step, run_jacobian, NEQ, FDQuot, JacMat, Idx, IdxClamp
 from ..project import AnalysisError, unparse
 
 # nominal (theta, xi) of the statement: class -> {typestate: (theta, xi)}
@@ -197,6 +197,9 @@ def fd_column(check, proj):
             problems.append(("store", "unsupported Jacobian store at %s" % sloc))
             continue
         row, col = idx
+        if v.partial or (isinstance(row, slice) and any(isinstance(x, (Idx, IdxClamp)) for x in (row.start, row.stop))):
+            problems.append(("partial", "column (i,q) is stored only into a band of rows that depends on the cell index (%s): couplings outside the band, e.g. through the periodic wrap, are dropped and volume-weighted column sums no longer vanish" % sloc))
+            continue
         if not (isinstance(row, slice) and isinstance(row.start, int) and row.stop is None and row.step == NEQ and isinstance(col, Idx)):
             problems.append(("layout", "store at %s does not use rows [qq::neq] and a column affine in the cell index" % sloc))
             continue
